@@ -1608,7 +1608,8 @@ impl Scenario for Violations {
             }
             if let (Some(code), true) = (code, close == want) {
                 let (envs, _) = wire_frames(o);
-                let ok = matches!(envs.last().and_then(|e| e.decode()), Some(AMQPFrame::Method(0, AMQPClass::Connection(pconnection::AMQPMethod::Close(c)))) if c.reply_code == code);
+                // (or the client's own Close(200), had it gone out before the frames were read: nothing may follow it)
+                let ok = matches!(envs.last().and_then(|e| e.decode()), Some(AMQPFrame::Method(0, AMQPClass::Connection(pconnection::AMQPMethod::Close(c)))) if c.reply_code == code || c.reply_code == 200);
                 if !ok {
                     v.push((format!("violations:first-violation-decides:{}", kind), format!("{}: the last frame written is not Connection.Close({})", kind, code)));
                 }
